@@ -42,7 +42,8 @@ fn len_class(n: usize, exact: usize) -> String {
 fn sm4_new(w: &mut World, op: &Value) -> R<Value> {
     let key = w.slot_of(op, "key")?;
     w.bump("call.sm4.cipher_new");
-    let out = run_lib_norng(|| Sm4Cipher::new(&key).map(|_| ()));
+    let key_p = crate::place::Placed::new(&key, w.next_place());
+    let out = run_lib_norng(|| Sm4Cipher::new(key_p.as_slice()).map(|_| ()));
     let class = class_of(&out);
     let case = fnv(&[b"sm4new", &key]);
     w.check_class(&["C20"], "sm4.cipher_new", &class, &format!("key.{}", len_class(key.len(), 16)), case, "");
@@ -57,9 +58,10 @@ fn sm4_block(w: &mut World, op: &Value) -> R<Value> {
         return Err("sm4.block: key must be 16 bytes".into());
     }
     w.bump(if dec { "call.sm4.block_decrypt" } else { "call.sm4.block_encrypt" });
+    let data_p = crate::place::Placed::new(&data, w.next_place());
     let out = run_lib_norng(|| {
         let c = Sm4Cipher::new(&key).map_err(|_| ())?;
-        if dec { c.decrypt(&data) } else { c.encrypt(&data) }.map(|_| ()).map_err(|_| ())
+        if dec { c.decrypt(data_p.as_slice()) } else { c.encrypt(data_p.as_slice()) }.map(|_| ()).map_err(|_| ())
     });
     let class = class_of(&out);
     let case = fnv(&[b"sm4block", &key, &data, &[dec as u8]]);
@@ -81,9 +83,10 @@ fn sm4_mode(w: &mut World, op: &Value) -> R<Value> {
         _ => CipherMode::Cbc,
     };
     w.bump(&format!("call.sm4.{mode}_{}", if dec { "decrypt" } else { "encrypt" }));
+    let (data_p, iv_p) = (crate::place::Placed::new(&data, w.next_place()), crate::place::Placed::new(&iv, w.next_place()));
     let out = run_lib_norng(|| {
         let c = Sm4CipherMode::new(&key, mk(&mode)).map_err(|_| ())?;
-        if dec { c.decrypt(&data, &iv) } else { c.encrypt(&data, &iv) }.map_err(|_| ())
+        if dec { c.decrypt(data_p.as_slice(), iv_p.as_slice()) } else { c.encrypt(data_p.as_slice(), iv_p.as_slice()) }.map_err(|_| ())
     });
     let class = class_of(&out);
     if let (Outcome::Done(Ok(v)), Some(o)) = (&out, gs_opt(op, "out")) {
@@ -106,7 +109,8 @@ fn sm4_mode(w: &mut World, op: &Value) -> R<Value> {
 fn mod_n_from_hash(w: &mut World, op: &Value) -> R<Value> {
     let data = w.slot_of(op, "data")?;
     w.bump("call.sm9.mod_n_from_hash");
-    let out = run_lib_norng(|| Ok::<_, ()>(gm_sm9::fields::mod_n_from_hash(&data)));
+    let data_p = crate::place::Placed::new(&data, w.next_place());
+    let out = run_lib_norng(|| Ok::<_, ()>(gm_sm9::fields::mod_n_from_hash(data_p.as_slice())));
     let class = class_of(&out);
     let case = fnv(&[b"modn", &data]);
     w.check_class(&["C20"], "sm9.mod_n_from_hash", &class, &format!("ha.{}", len_class(data.len(), 40)), case, "");
@@ -127,7 +131,8 @@ fn sm2_kdf(w: &mut World, op: &Value) -> R<Value> {
     let z = w.slot_of(op, "z")?;
     let klen = gu(op, "klen")? as usize;
     w.bump("call.sm2.kdf");
-    let out = run_lib_norng(|| Ok::<_, ()>(gm_sm2::util::kdf(&z, klen)));
+    let z_p = crate::place::Placed::new(&z, w.next_place());
+    let out = run_lib_norng(|| Ok::<_, ()>(gm_sm2::util::kdf(z_p.as_slice(), klen)));
     let class = class_of(&out);
     let case = fnv(&[b"kdf", &z, &(klen as u64).to_le_bytes()]);
     w.check_class(&["C20"], "sm2.kdf", &class, if klen == 0 { "klen=0" } else { "klen>0" }, case, "");
